@@ -24,16 +24,17 @@ pub fn run_dir() -> PathBuf {
 /// Ask the kernel for a free TCP port on 127.0.0.1 (released immediately; the proxy binds it next).
 pub fn free_port() -> u16 {
     // keep away from the ephemeral range used for outgoing connections: probe a private range
-    let base = 20000 + (std::process::id() % 300) as u16 * 100;
-    for _ in 0..2000 {
+    // below the kernel's ephemeral range (32768..), a private block per process
+    let base = 10000 + (std::process::id() % 200) as u16 * 100;
+    for _ in 0..4000 {
         let n = SEQ.fetch_add(1, Ordering::Relaxed);
-        let p = base.wrapping_add((n % 10000) as u16);
-        if p < 1024 {
-            continue;
-        }
-        if let Ok(l) = StdTcpListener::bind(("127.0.0.1", p)) {
-            if std::net::UdpSocket::bind(("127.0.0.1", p)).is_ok() {
+        let p = base + (n % 2000) as u16;
+        if let Ok(l) = StdTcpListener::bind(("0.0.0.0", p)) {
+            if std::net::UdpSocket::bind(("0.0.0.0", p)).is_ok() {
                 drop(l);
+                if std::env::var("VERIF_TRACE_PORTS").is_ok() {
+                    eprintln!("free_port -> {} (n={})", p, n);
+                }
                 return p;
             }
         }
